@@ -18,7 +18,7 @@ EXPLANATION = (
     "arithmetic, or trusted macro internals (tokio::try_join!). A new site or a row whose discharge fails is a violation. C14/R2 "
     "(MUSTPASS): every loop in a reader body consumes input (read_resolved_event / read_event / read_to_end / read_text / "
     "Iterator::next) on every path round the loop. C14/R3: every reader match has a catch-all arm returning UnexpectedXmlEvent; "
-    "ServerMsg::recv validates UTF-8 (from_utf8 .. map_err ..?) before from_xml. Not decided: panics/loops inside quick-xml, "
+    "ServerMsg::recv validates UTF-8 (from_utf8 .. map_err ..?) before from_xml. C14/R4: the first parse phase of a reply (PartialReply::read_xml, run by whichever caller holds the transport) fails only on the envelope — the result of skipping the body is not `?`-propagated and no body content is read — so a malformed body is reported to the request that owns the reply, not to a bystander. Not decided: panics/loops inside quick-xml, "
     "iri-string, generic-ip; memory exhaustion; transport-level hang on EOF (C07)."
 )
 
@@ -65,6 +65,36 @@ def run(ctx):
     r1_inventory(ctx, chk, fx)
     r2_progress(chk, fx)
     r3_catch_all(chk, fx)
+    r4_envelope_only(chk, fx)
+
+
+def r4_envelope_only(chk, fx):
+    """"... and replies to other outstanding requests are still delivered correctly afterwards": a reply is parsed in two phases —
+    PartialReply::read_xml (run by whichever caller happens to hold the transport) reads only the envelope and files the raw text
+    under its message-id; the owner of that id parses the body later.  A malformed *body* must therefore not fail phase one: the
+    error would be handed to the wrong caller and the reply's owner would wait for ever."""
+    n = "<netconf::message::rpc::PartialReply as netconf::message::ReadXml>::read_xml"
+    b = fx.mir.get(n)
+    if b is None:
+        raise F.AnchorLost("PartialReply::read_xml not found")
+    chk.analysed(n)
+    skips = [c for c in b.calls() if c.is_fn("read_to_end") and not c.macro]
+    chk.floor("C14/R4 PartialReply body skips", len(skips), 1)
+    tries = [c for c in b.calls() if c.is_fn("Try::branch")]
+    for c in skips:
+        t = b.forward_taint([c.dest["l"]])
+        hit = [x for x in tries if any(F.op_base(a) in t for a in x.args)]
+        chk.instance("C14/R4", "first parse phase does not fail on the reply body: the result of skipping it (read_to_end) is not `?`-propagated",
+                     n, c.loc(), holds=not hit, key="C14/R4 PartialReply::read_xml body-error-propagated",
+                     detail=None if not hit else "a truncated / malformed body of a reply with a readable message-id now fails in whichever caller "
+                     "is reading the transport, not in the request that owns the reply")
+    content = [c for c in b.calls() if c.is_fn("read_text", "ReadXml::read_xml", "read_event_into") and not c.macro]
+    chk.instance("C14/R4", "first parse phase reads nothing but the envelope (no read_text / nested read_xml of the body)", n, None,
+                 holds=not content, key="C14/R4 PartialReply::read_xml reads-body")
+    # the body is kept verbatim for the second phase
+    aggs = b.aggs_of("rpc::PartialReply")
+    ok = len(aggs) == 1
+    chk.instance("C14/R4", "PartialReply{message_id, buf} is built once, after the envelope loop", n, None, holds=ok, key="C14/R4 PartialReply literal")
 
 
 def sites_of(fx, name):
